@@ -13,65 +13,58 @@ open Muscle
 attribute [local simp] cBs cComma cBar cDot cPlus cStar cQm cLBr cRBr cLPar cRPar cCaret cDollar cLBrace cRBrace
   cTilde cTick cLt cGt cDash cEq
 
-/-- characters the loop copies unchanged (outside escape mode) -/
+/-- characters the loop copies unchanged outside a class (and outside escape mode) -/
 def passThru (c : UInt8) : Bool :=
-  !(c == cComma || c == cDot || c == cPlus || c == cStar || c == cQm || c == cBs)
+  !(c == cLBr || c == cComma || c == cDot || c == cPlus || c == cStar || c == cQm || c == cBs)
 
 theorem translateLoop_pass (c : UInt8) (r : Bytes) (h : passThru c = true) :
-    translateLoop false (c :: r) = c :: translateLoop false r := by
+    translateLoop false none (c :: r) = c :: translateLoop false none r := by
   simp only [passThru, Bool.not_eq_true', Bool.or_eq_false_iff, beq_eq_false_iff_ne, ne_eq] at h
-  obtain ⟨⟨⟨⟨⟨h1, h2⟩, h3⟩, h4⟩, h5⟩, h6⟩ := h
-  simp [translateLoop, h1, h2, h3, h4, h5, h6]
+  obtain ⟨⟨⟨⟨⟨⟨h0, h1⟩, h2⟩, h3⟩, h4⟩, h5⟩, h6⟩ := h
+  simp [translateLoop, h0, h1, h2, h3, h4, h5, h6]
 
-theorem translateLoop_passList (x rest : Bytes) (h : x.all passThru = true) :
-    translateLoop false (x ++ rest) = x ++ translateLoop false rest := by
+/-! ## inside a class -/
+
+/-- a class member as the loop sees it: neither the closing bracket nor a backslash -/
+def inCls (c : UInt8) : Bool := !(c == cRBr || c == cBs)
+
+/-- once the class has a member (`n ≥ 1` characters after the `[`, or `n ≥ 2` when the first is `^`), everything up
+    to the next `]` is copied unchanged and that `]` ends the class -/
+theorem translateLoop_members (x : Bytes) : ∀ (n : Nat) (k : Bool) (rest : Bytes),
+    (n ≥ 2 ∨ (n ≥ 1 ∧ k = false)) → x.all inCls = true →
+    translateLoop false (some (n, k)) (x ++ cRBr :: rest) = x ++ cRBr :: translateLoop false none rest := by
   induction x with
-  | nil => rfl
+  | nil =>
+    intro n k rest hn _
+    have hclose : decide (n > (if k = true then 1 else 0)) = true := by
+      rcases hn with h | ⟨h, rfl⟩
+      · cases k <;> simp <;> omega
+      · simp; omega
+    simp [translateLoop, clsClose, clsEmit, hclose]
   | cons c r ih =>
-    simp only [List.all_cons, Bool.and_eq_true] at h
-    simp only [List.cons_append, translateLoop_pass _ _ h.1, ih h.2]
+    intro n k rest hn hall
+    simp only [List.all_cons, Bool.and_eq_true] at hall
+    have hc := hall.1
+    simp only [inCls, Bool.not_eq_true', Bool.or_eq_false_iff, beq_eq_false_iff_ne, ne_eq] at hc
+    have hn0 : (n == 0) = false := by
+      rcases hn with h | ⟨h, _⟩ <;> (simp; omega)
+    have : translateLoop false (some (n, k)) (c :: (r ++ cRBr :: rest))
+        = c :: translateLoop false (some (n + 1, k)) (r ++ cRBr :: rest) := by
+      simp [translateLoop, clsClose, clsEmit, hc.1, hc.2, hn0]
+    simp only [List.cons_append, this]
+    have hn' : n + 1 ≥ 2 ∨ (n + 1 ≥ 1 ∧ k = false) := by
+      rcases hn with h | ⟨h, hk⟩
+      · left; omega
+      · left; omega
+    rw [ih (n + 1) k rest hn' hall.2]
 
-/-- …and those are the only ones (the backslash aside, which switches to escape mode): every other character is
-    replaced by text that starts with a different character -/
-theorem translateLoop_mangles (c : UInt8) (r : Bytes) (h : passThru c = false) (hbs : c ≠ cBs) :
-    ∃ d t, d ≠ c ∧ translateLoop false (c :: r) = d :: t := by
-  simp only [passThru, Bool.not_eq_false', Bool.or_eq_true, beq_iff_eq] at h
-  rcases h with ((((h | h) | h) | h) | h) | h
-  · subst h; exact ⟨cBar, translateLoop false r, by decide, by simp [translateLoop]⟩
-  · subst h; exact ⟨cBs, cDot :: translateLoop false r, by decide, by simp [translateLoop]⟩
-  · subst h; exact ⟨cBs, cPlus :: translateLoop false r, by decide, by simp [translateLoop]⟩
-  · subst h; exact ⟨cDot, cStar :: translateLoop false r, by decide, by simp [translateLoop]⟩
-  · subst h; exact ⟨cDot, translateLoop false r, by decide, by simp [translateLoop]⟩
-  · exact absurd h hbs
-
-/-- the loop leaves a backslash-free text unchanged exactly when the text contains none of `, . + * ?` -/
-theorem translateLoop_fixes_iff (x rest : Bytes) (hbs : cBs ∉ x) :
-    translateLoop false (x ++ rest) = x ++ translateLoop false rest ↔ x.all passThru = true := by
-  constructor
-  · induction x with
-    | nil => intro _; rfl
-    | cons c r ih =>
-      intro h
-      simp only [List.mem_cons, not_or] at hbs
-      cases hp : passThru c
-      · exfalso
-        obtain ⟨d, t, hd, ht⟩ := translateLoop_mangles c (r ++ rest) hp (fun e => hbs.1 e.symm)
-        simp only [List.cons_append, ht, List.cons.injEq] at h
-        exact hd h.1
-      · simp only [List.cons_append, translateLoop_pass _ _ hp, List.cons.injEq, true_and] at h
-        simp [hp, ih hbs.2 h]
-  · exact translateLoop_passList x rest
-
-theorem cls_render_all_pass (neg : Bool) (items : List ClsItem) :
-    (Pat.cls neg items).render.all passThru = (renderItems items).all passThru := by
-  cases neg <;> simp [Pat.render, passThru]
-
-theorem clsChar_pass (c : UInt8) (h : clsChar c = true) : passThru c = true := by
+theorem clsChar_inCls (c : UInt8) (h : clsChar c = true) : inCls c = true ∧ c ≠ cCaret := by
   simp only [clsChar, Bool.not_eq_true', Bool.or_eq_false_iff, beq_eq_false_iff_ne, ne_eq] at h
-  simp [passThru, h]
+  refine ⟨by simp [inCls, h], ?_⟩
+  simpa using h.1.1.2
 
-theorem renderItems_pass (items : List ClsItem) (h : items.all ClsItem.WF = true) :
-    (renderItems items).all passThru = true := by
+theorem renderItems_inCls (items : List ClsItem) (h : items.all ClsItem.WF = true) :
+    (renderItems items).all inCls = true := by
   induction items with
   | nil => rfl
   | cons it r ih =>
@@ -79,15 +72,52 @@ theorem renderItems_pass (items : List ClsItem) (h : items.all ClsItem.WF = true
     simp only [renderItems, List.flatMap_cons, List.all_append, Bool.and_eq_true]
     refine ⟨?_, ih h.2⟩
     cases it with
-    | ch c => simpa [ClsItem.render] using clsChar_pass c (by simpa [ClsItem.WF] using h.1)
+    | ch c => simpa [ClsItem.render] using (clsChar_inCls c (by simpa [ClsItem.WF] using h.1)).1
     | rng lo hi =>
       have h1 := h.1
       simp only [ClsItem.WF, Bool.and_eq_true] at h1
-      simp [ClsItem.render, clsChar_pass lo h1.1.1, clsChar_pass hi h1.1.2]
+      simp [ClsItem.render, (clsChar_inCls lo h1.1.1).1, (clsChar_inCls hi h1.1.2).1]
       decide
 
+/-- a non-empty list of well-formed items renders to a text that starts with a class character -/
+theorem renderItems_head (items : List ClsItem) (hne : items ≠ []) (h : items.all ClsItem.WF = true) :
+    ∃ c x, renderItems items = c :: x ∧ clsChar c = true := by
+  cases items with
+  | nil => exact absurd rfl hne
+  | cons it r =>
+    simp only [List.all_cons, Bool.and_eq_true] at h
+    cases it with
+    | ch c => exact ⟨c, renderItems r, by simp [renderItems, ClsItem.render], by simpa [ClsItem.WF] using h.1⟩
+    | rng lo hi =>
+      have h1 := h.1
+      simp only [ClsItem.WF, Bool.and_eq_true] at h1
+      exact ⟨lo, cDash :: hi :: renderItems r, by simp [renderItems, ClsItem.render], h1.1.1⟩
+
+/-- the loop copies a whole (well-formed) class unchanged and is outside the class again afterwards -/
+theorem translateLoop_class (neg : Bool) (items : List ClsItem) (rest : Bytes)
+    (hne : items ≠ []) (hwf : items.all ClsItem.WF = true) :
+    translateLoop false none ((Pat.cls neg items).render ++ rest)
+      = (Pat.cls neg items).render ++ translateLoop false none rest := by
+  obtain ⟨c, x, hx, hc⟩ := renderItems_head items hne hwf
+  have hall := renderItems_inCls items hwf
+  rw [hx] at hall
+  simp only [List.all_cons, Bool.and_eq_true] at hall
+  obtain ⟨hin, hcar⟩ := clsChar_inCls c hc
+  have hin' := hin
+  simp only [inCls, Bool.not_eq_true', Bool.or_eq_false_iff, beq_eq_false_iff_ne, ne_eq] at hin'
+  have hcar' : (c == (94 : UInt8)) = false := beq_eq_false_iff_ne.mpr (by simpa using hcar)
+  cases neg with
+  | false =>
+    have h1 := translateLoop_members x 1 false rest (Or.inr ⟨by omega, rfl⟩) hall.2
+    simp [Pat.render, hx, translateLoop, clsClose, clsEmit, hin'.1, hin'.2, hcar', h1]
+  | true =>
+    have h1 := translateLoop_members x 2 true rest (Or.inl (by omega)) hall.2
+    simp [Pat.render, hx, translateLoop, clsClose, clsEmit, hin'.1, hin'.2, h1]
+
+/-! ## outside -/
+
 theorem translateLoop_lit_plain (c : UInt8) (rest : Bytes) (h : plain c = true) :
-    translateLoop false (c :: rest) = (if ereSpecial c then [cBs, c] else [c]) ++ translateLoop false rest := by
+    translateLoop false none (c :: rest) = (if ereSpecial c then [cBs, c] else [c]) ++ translateLoop false none rest := by
   simp only [plain, Bool.not_eq_true', Bool.or_eq_false_iff, beq_eq_false_iff_ne, ne_eq] at h
   by_cases hd : c = cDot
   · subst hd; simp [translateLoop, ereSpecial]
@@ -95,16 +125,20 @@ theorem translateLoop_lit_plain (c : UInt8) (rest : Bytes) (h : plain c = true) 
     · subst hp; simp [translateLoop, ereSpecial]
     · simp [translateLoop, ereSpecial, h, hd, hp]
 
-/-- the loop is a string homomorphism on rendered patterns: it never stops in escape mode inside one -/
+/-- the loop is a string homomorphism on rendered patterns: at every token boundary it is neither in escape mode
+    nor inside a class -/
 theorem translateLoop_render (p : Pat) : ∀ (rest : Bytes), p.WF = true →
-    translateLoop false (p.render ++ rest) = (toEre p).render ++ translateLoop false rest := by
+    translateLoop false none (p.render ++ rest) = (toEre p).render ++ translateLoop false none rest := by
   induction p with
   | eps => intro rest _; rfl
   | lit esc c =>
     intro rest h
     simp only [Pat.WF, Bool.and_eq_true, Bool.or_eq_true] at h
     cases esc with
-    | true => simp [Pat.render, toEre, Ere.render, translateLoop, keepsBackslash_eq]
+    | true =>
+      by_cases hk : ereSpecial c = true
+      · simp [Pat.render, toEre, Ere.render, translateLoop, keepsBackslash_eq, hk, clsEmit, clsClose]
+      · simp [Pat.render, toEre, Ere.render, translateLoop, keepsBackslash_eq, hk, clsEmit, clsClose]
     | false =>
       have hp : plain c = true := by simpa using h.2
       simp only [Pat.render, toEre, Ere.render, Bool.false_eq_true, if_false, List.cons_append, List.nil_append]
@@ -114,11 +148,10 @@ theorem translateLoop_render (p : Pat) : ∀ (rest : Bytes), p.WF = true →
   | cls neg items =>
     intro rest h
     simp only [Pat.WF, Bool.and_eq_true] at h
-    have hi := renderItems_pass items h.2
-    have hall : (cLBr :: ((if neg then [cCaret] else []) ++ (renderItems items ++ [cRBr]))).all passThru = true := by
-      cases neg <;> simp [hi] <;> decide
-    simp only [Pat.render, toEre, Ere.render]
-    exact translateLoop_passList _ rest hall
+    have hne : items ≠ [] := by
+      intro e; subst e; simp at h
+    rw [translateLoop_class neg items rest hne h.2]
+    simp [Pat.render, toEre, Ere.render]
   | seq a b iha ihb =>
     intro rest h
     simp only [Pat.WF, Bool.and_eq_true] at h
@@ -141,8 +174,8 @@ theorem translateLoop_render (p : Pat) : ∀ (rest : Bytes), p.WF = true →
 
 /-- `if ((str[0] == '\\')&&(str[1] == '<')) str++` changes nothing: the loop drops that backslash anyway -/
 theorem translateLoop_skipLt (t : Bytes) :
-    translateLoop false (cLt :: t) = translateLoop false (cBs :: cLt :: t) := by
-  simp [translateLoop, keepsBackslash_eq, ereSpecial]
+    translateLoop false none (cLt :: t) = translateLoop false none (cBs :: cLt :: t) := by
+  simp [translateLoop, keepsBackslash_eq, ereSpecial, clsEmit, clsClose]
 
 theorem firstOK_cases (body : Bytes) (h : firstOK body = true) :
     body = [] ∨ ∃ c r, body = c :: r ∧ c ≠ cTilde ∧ c ≠ cTick ∧ c ≠ cLt := by
